@@ -49,6 +49,7 @@ structure Obs where
   stats : String := "-"
   early : Nat := 0     -- batch timers that provably fired before BatchTimeout had elapsed (sound bound, 1 ms tolerance)
   shapes : List (String × String) := []   -- (id, shape) of every record that reached the broker, any attempt
+  wheres : List (String × (String × Int) × Nat) := []   -- Completion without error: id, Topic/Partition, Offset as reported
   deriving Repr
 
 def JReq.applied (r : JReq) : Bool := r.out == "acked" || r.out == "lost1"
@@ -177,6 +178,8 @@ def holdsC01 (cfg : MCfg) (calls : List CDecl) (journal : List JReq) (obs : Obs)
    else obs.cbs.isEmpty) &&
   -- the record the broker got is the message as given: a nil Key / Value arrives as null, an empty one as empty
   obs.shapes.all (fun x => match findMsg calls x.1 with | some d => d.2.2.shape == x.2 | none => false) &&
+  -- Completion reports where the message is: the log of that topic-partition holds it at the reported offset
+  obs.wheres.all (fun x => (logOf obs x.2.1)[x.2.2]? == some x.1) &&
   -- never written to another partition or topic
   journal.all (fun r => r.keys.all (fun k => match findMsg calls k with | some x => expectedTP cfg x.2.2 == (r.topic, r.part) | none => false)) &&
   obs.logs.all (fun l => l.2.all (fun k => match findMsg calls k with | some x => expectedTP cfg x.2.2 == l.1 | none => false)) &&
